@@ -122,6 +122,12 @@ def lock_order(ctx, rid, floor=2):
     for a in L.acqs:
         if a.kind in ("direct", "once"):
             acquires.setdefault(a.inst.id, set()).add(a.lock)
+    # reader guards: a writer of HalfLock<T> waits (in its barrier) until the readers of that lock are gone: implicit edge
+    implicit = {}
+    for a in L.acqs:
+        if a.kind == "reader":
+            wl = a.lock.replace(".readers", ".write_mutex")
+            implicit.setdefault(wl, set()).add(a.lock)
     edges = {}
     witnesses = {}
     for (mid, lock), reg in L.regions.items():
@@ -148,6 +154,10 @@ def lock_order(ctx, rid, floor=2):
                     if l2 != a.lock:
                         edges.setdefault(a.lock, set()).add(l2)
                         witnesses.setdefault((a.lock, l2), (a.inst.name, t["sp"], F.inst[x].name))
+    for wl, rs in implicit.items():
+        for r in rs:
+            edges.setdefault(wl, set()).add(r)
+            witnesses.setdefault((wl, r), ("WriteGuard::store", "write barrier", "waits until the reader count of that lock drained"))
     locks = L.locks()
     for l in locks:
         ctx.ok(rid, "lock:%s" % lock_short(l), "lock node %s; acquires while holding: %s" % (lock_short(l), sorted(lock_short(x) for x in edges.get(l, ())) or "nothing"))
